@@ -3,18 +3,9 @@
    (Lemmas/Registry.v, cross-checked once against SLIP-0044).  Re-proved on every run. *)
 From Coq Require Import NArith List Bool.
 From BU Require Import Base.Bytes Gen.Bip44Params Model.Coins Lemmas.Registry.
+From BU Require Export Model.Bip44RegistryIdx.
 Import ListNotations.
 Open Scope N_scope.
-
-Definition registry_coin_idx (hid : N) (member : list N) : option N :=
-  match find (fun c => (family_code (c_family c) =? hid) && list_eqb (c_member c) member) golden with
-  | Some c => match c_body c with CBip b => Some (b_coin_idx b) | _ => None end
-  | None => None
-  end.
-
-Definition row_matches_registry (r : N * list N * N * bool * list N * bool) : bool :=
-  let '(hid, member, idx, _, _, _) := r in
-  match registry_coin_idx hid member with Some i => i =? idx | None => false end.
 
 Lemma coin_rows_match_registry : forallb row_matches_registry coin_rows = true.
 Proof. vm_compute. reflexivity. Qed.
